@@ -170,10 +170,12 @@ def check_batch(ctx, facts):
     ctx.saw_body(b)
     ctx.saw_body(u)
     # planning loop: every push into the plan is followed by the index increment; index increments only with a push
+    from .c04 import plan_shape
+    plan_ty, plan_bf, plan_of, plan_xf = plan_shape(facts)
     plan_pushes = []
     for s in b.calls(re.compile(r"Vec::push$")):
         l = borrowed_local(b, s.node["args"][0])
-        if l is not None and "(wal::block::Block, u64, usize)" in b.local_ty(l):
+        if l is not None and plan_ty in b.local_ty(l):
             plan_pushes.append((s, l))
     if not plan_pushes:
         ctx.anchor_missing("C07.1", "write plan pushes in batch_write")
@@ -181,7 +183,7 @@ def check_batch(ctx, facts):
     plan_local = plan_pushes[0][1]
     # parameter names by role (type), not by spelling
     bname = next((b.local_name(i) for i in range(1, b.arg_count + 1) if "[&[u8]]" in b.local_ty(i)), None)
-    pname = next((u.local_name(i) for i in range(1, u.arg_count + 1) if "(wal::block::Block, u64, usize)" in u.local_ty(i)), None)
+    pname = next((u.local_name(i) for i in range(1, u.arg_count + 1) if plan_ty in u.local_ty(i)), None)
     if not bname or not pname:
         ctx.anchor_missing("C07.1", "the batch slice parameter of batch_write / the write-plan parameter of the io_uring helper")
         return
@@ -274,9 +276,10 @@ def check_batch(ctx, facts):
     for w in b.calls(re.compile(r"block::Block::write$")):
         ea = [show(strip_refs(expr(b, a))) for a in w.node["args"]]
         # args: blk, offset, data, col, next
-        same = re.search(r"as Some\.0\.0|\.0$", ea[0]) is not None
-        data_ok = ea[2].startswith(bname + "[") and "as Some.0.2" in ea[2] or re.search(bre + r"\[.*\.2\]", ea[2])
-        off_ok = "as Some.0.1" in ea[1] or re.search(r"\.1$", ea[1])
+        bfx, ofx, xfx = re.escape(plan_bf), re.escape(plan_of), re.escape(plan_xf or "?")
+        same = re.search(r"as Some\.0\.%s|\.%s$" % (bfx, bfx), ea[0]) is not None
+        data_ok = ea[2].startswith(bname + "[") and ("as Some.0.%s" % (plan_xf or "?")) in ea[2] or re.search(bre + r"\[.*\.%s\]" % xfx, ea[2])
+        off_ok = ("as Some.0.%s" % plan_of) in ea[1] or re.search(r"\.%s$" % ofx, ea[1])
         if data_ok and off_ok:
             ctx.ok("C07.1", "writer::Writer::batch_write", "portable loop writes batch[plan.idx] at plan.offset of plan.block", b.relfile, w.line)
         else:
@@ -296,7 +299,7 @@ def check_batch(ctx, facts):
         offs = u.calls(re.compile(r"opcode::Write::offset$"))
         if offs:
             osh = show(strip_refs(expr(u, offs[0].node["args"][1])))
-            if re.search(r"(?i)^add\(.*\.0\.offset, .*\.1\)+$", osh):
+            if re.search(r"(?i)^add\(.*\.%s\.offset, .*\.%s\)+$" % (re.escape(plan_bf), re.escape(plan_of)), osh):
                 ctx.ok("C07.1", "writer::Writer::submit_batch_via_io_uring", "SQE offset = plan.block.offset + plan.offset", u.relfile, offs[0].line)
             else:
                 ctx.violate("C07.1", "writer::Writer::submit_batch_via_io_uring", "sqe-offset", u.relfile, offs[0].line, "SQE offset is %s" % osh[:60])
